@@ -3,6 +3,8 @@ import ScyllaVerif.Model.StreamMap
 import ScyllaVerif.Model.Conn
 import ScyllaVerif.Model.FrameStream
 import ScyllaVerif.Model.ConnIO
+import ScyllaVerif.Model.ConnSched
+import ScyllaVerif.Model.Response
 /-! Line-protocol driver for C02 (and the connection half of C10).
 
 * `map <op>;<op>;…`   — hook level: `ResponseHandlerMap` operations
@@ -15,13 +17,15 @@ import ScyllaVerif.Model.ConnIO
     `r<j>` server answers the j-th oldest unanswered frame it has read, `u<stream>` frame on a stream the
     server does not owe, `b<hex>` raw bytes from the server, `x` server closes, `g`/`G` close/open a gate on
     the client's writes (the writer blocks in `flush`, later tasks stay in the submit channel; behind the gate
-    the 1024-slot submit channel fills up: further callers park — `submitFull`, later `enqueue`),
+    the 1024-slot submit channel fills up: further callers park — `submitFull`, later `enqueue`; the permits and
+    the orphan ages are the model's: `Model/ConnSched.lean` `sstep`),
     `w` the client's writes fail from now on (`WriteError`), `h` a keep-alive hint (`trigger_keepalive`), `t<ms>` virtual time (keep-alive; the orphaner's
     1 s tick: more than 1024 stream ids orphaned for ≥ 1 s → `TooManyOrphanedStreamIds`).
   The reader (`ConnIO.reader`) and the keepaliver (`ConnIO.kaTurn`) are the model's.
 -/
 namespace ScyllaVerif.Drive.C02
 open ScyllaVerif.Util ScyllaVerif.StreamMap ScyllaVerif.Conn ScyllaVerif.FrameStream ScyllaVerif.ConnIO
+open ScyllaVerif.ConnSched (Sched SEv sstep stamp)
 
 /-- Split an operation into its letter and its argument. -/
 def splitOp (op : String) : Option (Char × String) :=
@@ -130,9 +134,6 @@ def callerStr : Option CallerSt → String
   | some (.done o) => outcomeStr o
   | some .abandoned => "cancelled"
 
-/-- Capacity of the submit channel (`mpsc::channel(1024)` in `Connection::new` and in the hook). -/
-def chanCap : Nat := 1024
-
 structure ConnSt where
   c : Conn
   gateClosed : Bool := false
@@ -151,25 +152,33 @@ structure ConnSt where
   kaNext : Nat := 0
   kaPending : Option (Nat × Nat) := none
   kaHint : Bool := false        -- `trigger_keepalive` was called and the keepaliver has not consumed the hint yet
+  events : Bool := false        -- the connection has an event sender (`conne` cases)
+  preferTick : Bool := false    -- the draw of `select!` when a tick is due and a hint is stored (`KaSt.preferTick`)
   orphTimes : List (Nat × Nat) := []   -- orphaned stream id ↦ when it was orphaned (`OrphanageTracker`)
   granted : List Nat := []      -- parked callers to which tokio's semaphore has assigned freed capacity; they still
                                 -- sit in `reserve()` (model: `sending`) until they are polled (`enqueue`)
 
-/-- Keep the orphaning times in step with the model's orphan set (a newly orphaned id gets the current time). -/
-def syncOrph (st : ConnSt) : ConnSt :=
-  if st.c.map.orphans == st.orphTimes.map (·.1) then st else
-  { st with orphTimes := st.c.map.orphans.map fun s =>
-      match st.orphTimes.find? (fun p => p.1 == s) with
-      | some p => p
-      | none => (s, st.clock) }
+/-- The scheduler view of the state (`Model/ConnSched.lean`): channel permits and orphan ages are the model's. -/
+def toSched (st : ConnSt) : Sched := { c := st.c, granted := st.granted, clock := st.clock, ages := st.orphTimes }
 
-/-- Capacity freed by the writer goes to the parked callers, oldest first. -/
-def grantN (n : Nat) (st : ConnSt) : ConnSt :=
-  let waiting := st.c.sending.filter (fun r => !st.granted.contains r)
-  { st with granted := st.granted ++ waiting.take n }
+def ofSched (st : ConnSt) (s : Sched) : ConnSt :=
+  { st with c := s.c, granted := s.granted, clock := s.clock, orphTimes := s.ages }
 
-/-- `n` × `writerTake`, logging the stream ids written (the id the writer will get is asked from the map first, so
-that the log does not have to search the server list). -/
+/-- One scheduler event of the model. -/
+def via (st : ConnSt) (e : SEv) : ConnSt := ofSched st (sstep (toSched st) e)
+
+/-- A connection state computed by another part of the model (reader, keepaliver) is installed. -/
+def install (st : ConnSt) (c' : Conn) : ConnSt := ofSched st (stamp (toSched st) c')
+
+/-- The keepaliver runs on the router task (a real waker): capacity assigned to its parked request is used at once. -/
+def kaPush (st : ConnSt) : ConnSt :=
+  match st.kaPending with
+  | some (r, _) => if st.granted.contains r then via st (.poll r) else st
+  | none => st
+
+/-- `n` × the writer's receive-allocate-write (`SEv.writerOne`: the freed slot goes to the oldest parked caller),
+logging the stream ids written (the id the writer will get is asked from the map first, so that the log does not
+have to search the server list). -/
 def takeN : Nat → ConnSt → ConnSt
   | 0, st => st
   | n + 1, st =>
@@ -178,31 +187,22 @@ def takeN : Nat → ConnSt → ConnSt
       match st.c.queue with
       | [] => none
       | r :: _ => (st.c.map.allocate r).map (·.1)
-    let c' := step st.c .writerTake
+    let st1 := kaPush (via st .writerOne)
     let st' := match written with
       | some s =>
-        if st.writeFail then { st with c := c' }
-        else if st.gateClosed then { st with c := c', hiddenLog := s :: st.hiddenLog, hidden := st.hidden + 1 }
-        else { st with c := c', srv := s :: st.srv }
-      | none => { st with c := c' }
+        if st.writeFail then st1
+        else if st.gateClosed then { st1 with hiddenLog := s :: st.hiddenLog, hidden := st.hidden + 1 }
+        else { st1 with srv := s :: st.srv }
+      | none => st1
     takeN n st'
 
-def orphanN : Nat → Conn → Conn
-  | 0, c => c
-  | n + 1, c => orphanN n (step c .orphanerStep)
+def orphanN : Nat → ConnSt → ConnSt
+  | 0, st => st
+  | n + 1, st => orphanN n (via st .orphaner)
 
 def toKa (st : ConnSt) (interval timeout : Nat) : KaSt :=
   { c := st.c, interval := interval, timeout := timeout, clock := st.clock, next := st.kaNext, pending := st.kaPending,
-    hint := st.kaHint, full := decide (st.c.queue.length + st.granted.length ≥ chanCap) }
-
-/-- The keepaliver runs on the router task (a real waker): capacity assigned to its parked request is used at once. -/
-def kaPush (st : ConnSt) : ConnSt :=
-  match st.kaPending with
-  | some (r, _) =>
-    if st.granted.contains r && !st.c.broken then
-      { st with c := step st.c (.enqueue r), granted := st.granted.filter (· != r) }
-    else st
-  | none => st
+    hint := st.kaHint, preferTick := st.preferTick, full := decide (st.c.queue.length + st.granted.length ≥ ScyllaVerif.ConnSched.chanCap) }
 
 /-- One turn of the router task: keepaliver, writer (one batch), orphaner. -/
 def routerTurn (st : ConnSt) : ConnSt :=
@@ -210,15 +210,13 @@ def routerTurn (st : ConnSt) : ConnSt :=
     | none => st
     | some (i, t) =>
       let k := kaTurn (toKa st i t)
-      { st with c := k.c, kaNext := k.next, kaPending := k.pending, kaHint := k.hint }
+      { install st k.c with kaNext := k.next, kaPending := k.pending, kaHint := k.hint }
   let st1 :=
     if st.c.broken || st.blocked || st.c.queue.isEmpty then st else
-    let n := st.c.queue.length
-    let st' := takeN n st
-    let st' := kaPush (grantN n st')
-    if st.writeFail then { st' with c := step st'.c (.break_ .writeError) }
+    let st' := takeN st.c.queue.length st
+    if st.writeFail then via st' (.break_ .writeError)
     else if st.gateClosed then { st' with blocked := true } else st'
-  syncOrph { st1 with c := orphanN st1.c.notices.length st1.c }
+  orphanN st1.c.notices.length st1
 
 /-- Run the router until it is idle. -/
 def settle (st : ConnSt) : ConnSt := routerTurn (routerTurn (routerTurn st))
@@ -235,25 +233,28 @@ def tagStr (body : List UInt8) : String :=
     if v == 18446744073709551615 then "unsolicited" else toString v
   else "?" ++ toHex body
 
-/-- Printing only: which request each whole raw frame answers (first frame per stream). -/
-def noteBodiesGo (server : List (Nat × Nat)) : List Frame → List (Nat × String) → List Nat → List (Nat × String)
-  | [], acc, _ => acc
-  | f :: rest, acc, seen =>
-    if f.stream < 0 then noteBodiesGo server rest acc seen else
-    let s := f.stream.toNat
-    if seen.contains s then noteBodiesGo server rest acc seen else
-    match server.find? (fun p => p.1 == s) with
-    | some (_, r) => noteBodiesGo server rest ((r, tagStr f.body) :: acc) (s :: seen)
-    | none => noteBodiesGo server rest acc (s :: seen)
-
+/-- Printing: the bytes each answered request was handed — the model's `ConnIO.answerOf`
+(`Props.C10.delivered_frame_was_sent`). -/
 def noteBodies (st : ConnSt) : ConnSt :=
-  { st with bodies := noteBodiesGo st.c.server (readFrames st.inbuf).1 st.bodies [] }
+  let fs := (readFrames st.inbuf).1
+  if fs.isEmpty then st else
+  let new := st.c.server.filterMap fun (_, r) =>
+    (answerOf st.c fs r).map fun f => (r, tagStr f.body)
+  { st with bodies := new ++ st.bodies }
+
+/-- `parse_response(..)` yields `Response::Event`: the EVENT opcode and a body that C08's model of
+`EventV2::deserialize` accepts (frames with body extensions - flags - are not used on the event stream here). -/
+def eventOk (f : Frame) : Bool :=
+  f.opcode == 0x0C && f.flags == 0 &&
+    match (ScyllaVerif.C08.run ScyllaVerif.C08.deserEvent f.body).1 with
+    | .ok _ => true
+    | _ => false
 
 /-- Bytes have arrived (or the peer has closed): the model's reader runs. -/
 def runReader (st : ConnSt) : ConnSt :=
   let st := noteBodies st
-  let (c', rest) := reader st.c st.inbuf st.eof
-  syncOrph { st with c := c', inbuf := rest }
+  let (c', rest) := if st.events then readerEv eventOk st.c st.inbuf st.eof else reader st.c st.inbuf st.eof
+  { install st c' with inbuf := rest }
 
 /-- The gate opens: the blocked `flush` completes (unless the router is gone), then the writer goes on. -/
 def openGate (st : ConnSt) : ConnSt :=
@@ -262,41 +263,20 @@ def openGate (st : ConnSt) : ConnSt :=
 
 def userReq (st : ConnSt) (k : Nat) : Option Nat := st.users.reverse[k]?
 
-/-- A caller enters `send_request`: there is room in the submit channel, or it parks. -/
-def submitEv (st : ConnSt) : Ev :=
-  if st.c.queue.length + st.granted.length ≥ chanCap then .submitFull else .submit
-
-/-- Dropping request `r`'s future; capacity that was assigned to it goes to the next parked caller. -/
-def cancelReq (st : ConnSt) (r : Nat) : ConnSt :=
-  let had := st.granted.contains r
-  let st := { st with c := step st.c (.cancel r), granted := st.granted.filter (· != r) }
-  if had && !st.c.broken then kaPush (grantN 1 st) else st
-
-/-- Polling request `r`'s future: a parked caller that was assigned capacity pushes its task (`enqueue`; if the
-channel has been closed meanwhile its `reserve()` fails instead — it already holds `ChannelError`), any other
-caller looks into its oneshot. -/
-def pollReq (st : ConnSt) (r : Nat) : ConnSt :=
-  if st.granted.contains r && !st.c.broken then
-    { st with c := step st.c (.enqueue r), granted := st.granted.filter (· != r) }
-  else { st with c := step st.c (.recv r) }
-
-/-- The orphaner's 1 s tick (`old_orphans_count() > OLD_ORPHAN_COUNT_THRESHOLD`). -/
+/-- The orphaner's interval ticks every second of virtual time (`tokio::time::interval(OLD_AGE_ORPHAN_THRESHOLD)`). -/
 def orphanTick (st : ConnSt) (oldClock : Nat) : ConnSt :=
-  if st.clock / 1000 > oldClock / 1000 && st.clock ≥ 1000 then
-    let old := st.orphTimes.filter (fun p => p.2 + 1000 ≤ st.clock)
-    if old.length > 1024 then { st with c := step st.c (.break_ .tooManyOrphanedStreamIds) } else st
-  else st
+  if st.clock / 1000 > oldClock / 1000 && st.clock ≥ 1000 then via st .orphanTick else st
 
 def connOp (st : ConnSt) (op : String) : Option ConnSt :=
   match splitOp op with
   | none => none
   | some (c, arg) =>
     let noArg (r : ConnSt) : Option ConnSt := if arg == "" then some r else none
-    if c == 's' then noArg (settle { st with c := step st.c (submitEv st), users := st.c.nextReq :: st.users })
+    if c == 's' then noArg (settle { via st .submit with users := st.c.nextReq :: st.users })
     else if c == 'S' then
       let r := st.c.nextReq
-      let st1 := { st with c := step st.c (submitEv st), users := r :: st.users }
-      noArg (settle (cancelReq st1 r))
+      let st1 := { via st .submit with users := r :: st.users }
+      noArg (settle (via st1 (.cancel r)))
     else if c == 'g' then noArg { st with gateClosed := true }
     else if c == 'G' then noArg (openGate st)
     else if c == 'h' then
@@ -305,7 +285,7 @@ def connOp (st : ConnSt) (op : String) : Option ConnSt :=
     else if c == 'w' then
       let st := { st with writeFail := true }
       -- a writer waiting in `flush` is woken and fails
-      noArg (settle (if st.blocked then { st with c := step st.c (.break_ .writeError), blocked := false } else st))
+      noArg (settle (if st.blocked then { via st (.break_ .writeError) with blocked := false } else st))
     else if c == 'x' then
       if st.eof then noArg st else
       noArg (settle (runReader { st with eof := true }))
@@ -320,35 +300,40 @@ def connOp (st : ConnSt) (op : String) : Option ConnSt :=
       | none => none
       | some s =>
         if s < -32768 || s > 32767 then none else
-        if s < 0 then some st else
+        if s < 0 then
+          -- a RESULT frame on a negative stream: ignored — unless an event sender is registered and it is stream -1
+          if st.events && s == -1 && !st.eof && st.inbuf.isEmpty then
+            some (settle (runReader { st with inbuf := encode ⟨0, -1, 0x08, List.replicate 8 0xFF⟩ }))
+          else some st
+        else
         let s := s.toNat
         if st.eof || !st.inbuf.isEmpty then some st else
         if (visibleIdx st s).isSome then some st else
         if st.gateClosed && s < 2000 then some st else
-        some (settle (syncOrph { st with c := step st.c (.unsolicited s) }))
+        some (settle (via st (.unsolicited s)))
     else
     match arg.toNat? with
     | none => none
     | some n =>
       if c == 'c' then
         match userReq st n with
-        | some r => some (settle (cancelReq st r))
+        | some r => some (settle (via st (.cancel r)))
         | none => some st
       else if c == 'C' then
         match userReq st n with
-        | some r => some (cancelReq st r)
+        | some r => some (via st (.cancel r))
         | none => some st
       else if c == 'p' then
         match userReq st n with
-        | some r => some (settle (pollReq st r))
+        | some r => some (settle (via st (.poll r)))
         | none => some st
       else if c == 'r' then
         if st.eof || !st.inbuf.isEmpty then some st else
         if n < st.c.server.length - st.hidden then
-          some (settle (syncOrph { st with c := step st.c (.respond n) }))
+          some (settle (via st (.respond n)))
         else some st
       else if c == 't' then
-        let st1 := { st with clock := st.clock + n }
+        let st1 := via st (.advance n)
         some (settle (orphanTick st1 st.clock))
       else none
 
@@ -357,7 +342,7 @@ def recvAll : List Nat → Conn → Conn
   | r :: rest, c => recvAll rest (step c (.recv r))
 
 /-- Every request future is polled once (oldest first). -/
-def pollAll (st : ConnSt) : ConnSt := st.users.reverse.foldl pollReq st
+def pollAll (st : ConnSt) : ConnSt := st.users.reverse.foldl (fun st r => via st (.poll r)) st
 
 def userOutcome (st : ConnSt) (users : List Nat) : Outcome → String
   | .frame f =>
@@ -406,11 +391,22 @@ def runConnFrom (st0 : ConnSt) (ops : List String) : String :=
 
 def runConn (ops : List String) : String := runConnFrom { c := Conn.init } ops
 
+/-- The same with an event sender registered. -/
+def runConnEv (ops : List String) : String := runConnFrom { c := Conn.init, events := true } ops
+
 /-- Keep-alive enabled: the first tick completes one interval after the start. The schedule ends with a silent
 stall of the server, longer than interval + timeout (in steps of 100 ms of virtual time). -/
-def runConnKa (interval timeout : Nat) (ops : List String) : String :=
-  runConnFrom { c := Conn.init, ka := some (interval, timeout), kaNext := interval }
+def runConnKaWith (preferTick : Bool) (interval timeout : Nat) (ops : List String) : String :=
+  runConnFrom { c := Conn.init, ka := some (interval, timeout), kaNext := interval, preferTick := preferTick }
     (ops ++ List.replicate ((interval + timeout) / 100 + 3) "t100")
+
+/-- The one nondeterministic choice of the keepaliver (`select!` between a due tick and a stored hint) is checked
+by membership: the implementation's line must be what the model yields for one of the two draws. -/
+def runConnKa (interval timeout : Nat) (ops : List String) (impl : String) : String :=
+  let l0 := runConnKaWith false interval timeout ops
+  if l0 == impl then l0 else
+  let l1 := runConnKaWith true interval timeout ops
+  if l1 == impl then l1 else l0
 
 def splitOps (s : String) : List String := (s.splitOn ";").filter (· ≠ "")
 
